@@ -46,6 +46,11 @@ def gen_case(rng, i):
     L = int(rng.integers(40, 400))
     nrec = int(rng.integers(1, 4))
     recs = [pg.gen_record(rng, n=(L if fam in ("diff", "psd") else int(rng.integers(40, 400))), dt=dt, deg=float(rng.choice([0.0, 35.0]))) for _ in range(nrec)]
+    if nrec >= 2 and fam not in ("psd",) and rng.random() < 0.3:
+        # time steps that are equal to single precision only (what float32 file headers produce): inputs must still be left alone
+        recs[-1]["dt"] = float(np.float32(dt))
+        if fam == "diff":
+            recs[-1]["dt"] = dt
     fft = [None, dict(n=65536), dict(n=None)][int(rng.integers(0, 3))] if True else None
     max_n = max(len(r["vt"]) for r in recs)
     nfft = pg.predicted_nfft(fft, max_n)
@@ -59,6 +64,7 @@ def gen_case(rng, i):
         c["pct"] = 50.0; c["azimuths"] = [0.0, 45.0, 90.0, 135.0]
     elif fam == "az":
         c["azimuths"] = [0.0, 60.0, 120.0]
+    c["fcs_as_array"] = bool(i % 2 == 0)
     return c
 
 
@@ -66,6 +72,9 @@ def check_case(ctx, c, rng):
     import hvsrpy
     srecords = [pg.make_srecord(r) for r in c["records"]]
     settings = pg.make_settings(c)
+    if c.get("fcs_as_array") and settings.smoothing is not None:
+        # the default holds the centre frequencies as a float64 ndarray: results must not alias it
+        settings.smoothing["center_frequencies_in_hz"] = np.array(settings.smoothing["center_frequencies_in_hz"], dtype=float)
     before = snapshot(srecords)
     r1 = pg.run_impl(c, srecords, settings)
     after = snapshot(srecords)
